@@ -416,6 +416,20 @@ class World:
                 return di.DataFrame.from_arrow(f.to_arrow())
             if via == "json":
                 return di.DataFrame.from_json(f.to_json())
+            # readers are "constructors" too (C01): write to the run's scratch file, read back
+            import os
+            import tempfile
+            root = os.environ.get("DSIM_SCRATCH") or tempfile.gettempdir()
+            ext = {"csvfile": ".csv", "parquetfile": ".parquet", "npzfile": ".npz",
+                   "picklefile": ".pkl.gz", "jsonfile": ".json"}[via]
+            path = os.path.join(root, f"e1-{os.getpid()}{ext}")
+            try:
+                kind = via[:-4]
+                getattr(f, "write_" + kind)(path)
+                return getattr(di.DataFrame, "read_" + kind)(path)
+            finally:
+                with contextlib.suppress(OSError):
+                    os.unlink(path)
         info = self.run_functional(op, call, [h])
         info["cls"] = via
         return info
@@ -814,6 +828,7 @@ class World:
         toks = {x: self.tokens(x) for x in [h] + others}
         nrow = f.nrow
         exp = []
+        bcast = []
         seen = set()
         defined = True
         for x in [h] + others:
@@ -825,13 +840,22 @@ class World:
                 if fx.nrow == nrow or x == h:
                     exp.append((n, toks[x][n]))
                 elif fx.nrow == 1 and nrow >= 1:
-                    exp.append((n, None))       # broadcast: names/order only
+                    exp.append((n, None))       # broadcast: values checked below
+                    bcast.append((n, M.col_values(dict.__getitem__(fx, n))[0]))
                 else:
                     defined = False
         if not dict.keys(f) and others:
             defined = False     # receiver without columns: row count undefined
         op["defined"] = defined
-        c09 = (lambda res: self.compare_tokens(res, exp)) if defined else None
+
+        def check(res):
+            bad = self.compare_tokens(res, exp)
+            for n, v in bcast:
+                if not bad and n in res and not self.logical_equal(dict.__getitem__(res, n), [v] * nrow):
+                    bad.append(("broadcast-value", f"column {n!r} of a 1-row operand should be {v!r} "
+                                f"x {nrow}, got {M.col_values(dict.__getitem__(res, n))!r}"))
+            return bad
+        c09 = check if defined else None
         return self.run_functional(op, lambda: f.cbind(*[self.frames[x] for x in others]),
                                    [h] + others, c09=c09)
 
@@ -1654,7 +1678,8 @@ class Gen:
 
     def g_convert(self):
         op = self.base("convert")
-        op["via"] = self.rng.choice(["lod", "pandas", "arrow", "json"])
+        op["via"] = self.rng.choice(["lod", "pandas", "arrow", "json", "csvfile", "parquetfile",
+                                     "npzfile", "picklefile", "jsonfile"])
         return op
 
     def g_setitem(self):
